@@ -451,6 +451,11 @@ def select(insts, cap, seed):
     within a family the order is shuffled by `seed`"""
     if len(insts) <= cap:
         return insts
+    # the reference-count-path scenarios (1-2 objects, a few seconds each) are always kept: they are
+    # the only ones that exercise callbacks re-entering the API from a plain Cc::drop
+    must = [i for i in insts if i.family.startswith(("rcfin", "rcdrop", "weak_rc"))]
+    insts = [i for i in insts if not i.family.startswith(("rcfin", "rcdrop", "weak_rc"))]
+    cap = max(0, cap - len(must))
     rng = random.Random(seed)
     def coarse(f):
         t = f.split("_")
@@ -474,7 +479,7 @@ def select(insts, cap, seed):
                 progressed = True
         if not progressed:
             break
-    return out
+    return must + out
 
 
 def write(path, insts):
